@@ -89,6 +89,12 @@ def cases(tier, seed):
             ["FU", ["FU", S_, M_], ["FU", ct8, S_]]]
     for i in range(0, len(wide), 2):
         yield {"named": False, "programs": wide[i:i + 2], "ncols": 12}
+    # degenerate but legal shapes: a ColumnTransformer entry selecting zero columns, a one-entry union around it, a single-step pipeline
+    for named in (True, False):
+        c3 = ["a", "b", "c"] if named else [0, 1, 2]
+        degenerate = [["CT", [[S_, c3], [M_, []]], "drop"], ["CT", [[M_, []], [S_, c3[:2]]], "passthrough"],
+                      ["P", ["CT", [[S_, c3], [M_, []]], "drop"], M_], ["FU", S_, ["CT", [[M_, c3[1:]], [S_, []]], "drop"]]]
+        yield {"named": named, "programs": degenerate}
 
 
 def _build(p):
@@ -143,6 +149,8 @@ def _executed(obj):
         for name, m, _c in getattr(obj, "transformers_", obj.transformers):
             if isinstance(m, str) or name == "remainder" or type(m).__name__ == "FunctionTransformer":
                 continue
+            if hasattr(_c, "__len__") and len(_c) == 0:
+                continue          # an entry selecting zero columns is skipped by scikit-learn itself: it is never executed
             out.extend(_executed(m))
     return out
 
